@@ -77,6 +77,8 @@ func init() {
 			{"xlsxWorksheet", "mergeCellsParser", "mergeCellsParser"},
 			{"", "cellInRange", "cellInRange"},
 			{"xlsxMergeCell", "Rect", "mergeCellRect"},
+			{"", "bstrUnmarshal", "bstrUnmarshal"},
+			{"File", "GetRows", "GetRows"},
 			{"", "isOverlap", "isOverlap"},
 			{"", "mergeCell", "mergeCell"},
 			{"", "flatMergedCells", "flatMergedCells"},
